@@ -51,7 +51,7 @@ ASSUMPTIONS = [
 
 POOL = ['i1', 'i2', 'i3', 'i4', 'i\u00e95']
 EXTRA = ['u1', 'u2', '\u7a7a3']
-STATUSES = ['active', 'provisional', 'deprecated', 'zz']
+STATUSES = ['active', 'provisional', 'deprecated', 'zz', 'proposed']
 AUTHORITATIVE = ('active', 'provisional', 'deprecated')
 INDEX_ROUTES = ['file', 'package', 'gz', 'xz', 'tar.xz:package']
 N_FILLER = 1050     # > wn._add.BATCH_SIZE
@@ -339,7 +339,17 @@ def _api_check(model: dict, table: dict, out: list, label: str) -> None:
         for s in sorted({v[1] for v in want_ili.values()} | set(STATUSES) | {'presupposed'}):
             w = _srt(v for v in (want_ili.get(i) for i in set(sss.values()) - {'', 'in'})
                      if v and v[1] == s)
-            g = _srt(_ili_pair(x) for x in wn.ilis(status=s, lexicon=spec))
+            g = [_ili_pair(x) for x in wn.ilis(status=s, lexicon=spec)]
+            if s == 'proposed':
+                # an index may call an ILI 'proposed'; the proposed ILIs of synsets (no id) come
+                # on top: one per synset with ili="in"
+                own = [x for x in g if x[0] is None]
+                g = [x for x in g if x[0] is not None]
+                if len(own) != sum(1 for i in sss.values() if i == 'in'):
+                    out.append(Disc('ilis-status-filter-wrong',
+                                    f'{label}/ilis(status={s!r}, lexicon={spec}) proposed by synsets',
+                                    sum(1 for i in sss.values() if i == 'in'), own))
+            g = _srt(g)
             if w != g:
                 out.append(Disc('ilis-status-filter-wrong', f'{label}/ilis(status={s!r}, lexicon={spec})',
                                 w, g))
@@ -353,10 +363,11 @@ def _api_check(model: dict, table: dict, out: list, label: str) -> None:
                             sorted(by_ili.get(i, [])), g))
     for s in sorted({v[1] for v in want_ili.values()} | set(STATUSES) | {'presupposed'}):
         w = _srt(v for v in want_ili.values() if v[1] == s)
-        g = _srt(_ili_pair(x) for x in wn.ilis(status=s))
+        g = _srt(x for x in (_ili_pair(y) for y in wn.ilis(status=s))
+                 if not (s == 'proposed' and x[0] is None))
         if w != g:
             out.append(Disc('ilis-status-filter-wrong', f'{label}/wn.ilis(status={s!r})', w, g))
-    g = [_ili_pair(x) for x in wn.ilis(status='proposed')]
+    g = [x for x in (_ili_pair(y) for y in wn.ilis(status='proposed')) if x[0] is None]
     if len(g) != n_proposed or any(x[:2] != [None, 'proposed'] for x in g):
         out.append(Disc('ilis-status-filter-wrong', f'{label}/wn.ilis(status=\'proposed\')',
                         f'{n_proposed} proposed ILIs', g))
